@@ -119,7 +119,11 @@ def _inline_one(P, f, raw, keep, depth):
                 next_id += 1
             after_id = next_id
             next_id += 1
-            nrets = sum(1 for gb in graw['blocks'] for gev in gb['events'] if gev['k'] == 'ret' and gev.get('val') is not None)
+            rvals = [gev.get('val') for gb in graw['blocks'] for gev in gb['events'] if gev['k'] == 'ret' and gev.get('val') is not None]
+            nrets = len(rvals)
+            # several returns of one and the same unassigned-elsewhere local count as one
+            if nrets > 1 and all(isinstance(v, dict) and v.get('k') == 'var' and v.get('sc') == 'local' and v.get('name') == rvals[0].get('name') for v in rvals):
+                nrets = 1
             retvar = {'k': 'var', 'name': '__ret' + sfx, 'sc': 'local', 't': graw.get('ret', 'int')}
             d_in = ev.get('inl_depth', 0) + 1
 
